@@ -73,6 +73,134 @@ CHECKS = {
              "lambda_>0 is listed in KNOWN_FINDINGS.json.",
         ref="DESIGN.md section 6 C20",
     ),
+    "C04": dict(
+        category="exploration",
+        technique="runtime monitoring: wrappers + sys.monitoring local probe on the real interval code against a reference-model monitor; statistical monitor (exact binomial tail) for the coverage clause",
+        text="Clause 1: for every nonparametric interval computation in real runs and in direct calls with hostile "
+             "calibration sets (ties, dominant weight, negative corrections, shares hitting the quantile level) the "
+             "published unit bounds must equal those obtained from an independently computed correction (smallest "
+             "score whose baseline-weighted share exceeds alpha(1+1/n_cal); robust: max with the unweighted quantile); a "
+             "PY_RETURN probe observes the local `correction`. Clause 2: Monte-Carlo coverage on i.i.d. equal-baseline "
+             "elections with an exact binomial verdict (false-alarm probability <= 1e-9 per cell).",
+        note="Trusted: reference in vlib/checks/c04.py; split-conformal theory for the false-alarm bound; clause 2 is a "
+             "statement about a distribution and is decided with that stated error probability.",
+        ref="DESIGN.md section 6 C04",
+    ),
+    "C05": dict(
+        category="exploration",
+        technique="runtime monitoring: reference-model monitor (sorted, exact-integer weighted median) on returned unit tables of real runs without covariates",
+        text="Runs with features=[] and fixed_effects={}: every nonreporting unit's prediction must equal "
+             "round(max(m*w+w, partial)) with m the unique baseline-weighted median of the relative change over the "
+             "modelled reporting units; non-unique medians are skipped and counted.",
+        note="Trusted: the weighted-median reference; the modelled reporting set is read from the returned table (C09 checks it).",
+        ref="DESIGN.md section 6 C05",
+    ),
+    "C06": dict(
+        category="exploration",
+        technique="runtime monitoring: row-predicate contracts on bootstrap tables + contract sweep of the real _get_quantiles over an alpha x B grid",
+        text="Ordering, nesting, margin range and turnout predicates on every unit/group row of real bootstrap runs "
+             "(B from 2 to 100, lambda incl. cross-validated, districts, partial units), and the rank arithmetic "
+             "evaluated on 2000 alphas x 202 values of B.",
+        note="Trusted: predicates in vlib/checks/c06.py. No contest is called or stopped in this workload.",
+        ref="DESIGN.md section 6 C06",
+    ),
+    "C07": dict(
+        category="exploration",
+        technique="runtime monitoring: decision-table oracle on real runs + state injection into the model's draw matrices driving every feasible table row through the real aggregate methods",
+        text="Per contest and level the decision table (called left/right, stopped, untouched) is checked on real runs "
+             "and on injected bootstrap states that force every feasible sign combination of (lower, prediction, "
+             "upper); contradictory or unknown call lists must raise BootstrapElectionModelException.",
+        note="Trusted: the injection writes the attributes compute_bootstrap_errors writes; thorough/quick are "
+             "inconclusive unless all 24 feasible rows were reached.",
+        ref="DESIGN.md section 6 C07",
+    ),
+    "C08": dict(
+        category="exploration",
+        technique="runtime monitoring: history-independence (same election, different aggregate lists) two-run monitor + contract on the national summary with draw replacement for called contests",
+        text="The national summary of real bootstrap runs is checked for ordering, range, the prediction formula "
+             "against the returned contest table, invariance under replacement of the draws of called contests, "
+             "rejection of wrong-size weights, and equality across 3-4 different aggregate lists/orders per election.",
+        note="Trusted: draw matrices read from the model object. Known finding (non-correlated modes) in KNOWN_FINDINGS.json.",
+        ref="DESIGN.md section 6 C08",
+    ),
+    "C09": dict(
+        category="exploration",
+        technique="runtime monitoring: boundary contract on CombinedDataHandler.get_units (wrapper inside real get_estimates) against a plain-python reference classifier",
+        text="Boundary-heavy feeds (values exactly at threshold and at the turnout-factor limits, overlapping reasons, "
+             "both policies, outlier models) are classified unit by unit by a reference and compared with the three "
+             "frames the real get_units returns; derived columns are recomputed.",
+        note="Trusted: reference classifier; which units an enabled outlier model flags is taken from its recorded output.",
+        ref="DESIGN.md section 6 C09",
+    ),
+    "C10": dict(
+        category="exploration",
+        technique="runtime monitoring: two-run (non-interference) monitor with solver-input digests recorded at elexsolver fit boundaries",
+        text="Pairs of runs differing only in one victim unit's counts: all other unit rows and all groups not "
+             "containing it must be bit-identical and the sequence of solver input digests must not change; the "
+             "historical clause is run from local files in a scratch directory.",
+        note="Trusted: digest = sha1 of array bytes; gaussian sigma with 300 resamples.",
+        ref="DESIGN.md section 6 C10",
+    ),
+    "C11": dict(
+        category="exploration",
+        technique="runtime monitoring: two-run (frame-rule) monitor with/without extra feed rows, bootstrap draw matrices compared and intervals recomputed",
+        text="Runs with and without 1-3 extra unexpected units: the second result must equal the first plus exactly the "
+             "extra votes on the attributable groups, new groups only where needed, one unit row each, all else "
+             "unchanged (bootstrap: up to 1e-10 relative because matrix shapes change), and must never raise.",
+        note="Trusted: id rule for attribution. Two bootstrap classes are known findings.",
+        ref="DESIGN.md section 6 C11",
+    ),
+    "C12": dict(
+        category="exploration",
+        technique="runtime monitoring: two-run determinism monitor over call histories and across processes with different PYTHONHASHSEED",
+        text="Canonical digests of all returned tables (and the national summary) compared across fresh client / same "
+             "client / A-B-A histories and fresh processes with other hash seeds.",
+        note="Trusted: digest covers column names, order, dtypes and value bytes; BLAS threads pinned to 1.",
+        ref="DESIGN.md section 6 C12",
+    ),
+    "C13": dict(
+        category="exploration",
+        technique="runtime monitoring: two-run monitor comparing a base request with sub-requests on their common columns",
+        text="A base request and six kinds of sub-request per election; common (table,row,column) cells must be "
+             "bit-identical and key/category columns stable.",
+        note="Trusted: complete feeds only (quantifier).",
+        ref="DESIGN.md section 6 C13",
+    ),
+    "C14": dict(
+        category="exploration",
+        technique="runtime monitoring: outcome contract on get_estimates around the minimum + exhaustive sweep of the real split arithmetic with a stubbed solver",
+        text="Gate runs at n in {min-2..min+3}; the real get_unit_prediction_intervals for every n from the minimum to "
+             "400 (quick) / 3000 (thorough) x the alpha grid with only the solver stubbed; sampled real-solver calls; "
+             "duplicate ids.",
+        note="Trusted: the stub replaces only QuantileRegressionSolver.fit.",
+        ref="DESIGN.md section 6 C14",
+    ),
+    "C15": dict(
+        category="exploration",
+        technique="runtime monitoring: wrapper on GaussianElectionModel.get_aggregate_prediction_intervals + reference-model monitor for group->ancestor assignment, statistics and bounds formula",
+        text="For every aggregate interval computation of real gaussian runs the reference walks each nonreporting group "
+             "up to the first ancestor with enough calibration units, recomputes its statistics and the bounds formula "
+             "and compares with modeled_bounds_agg and the published columns.",
+        note="Trusted: the repository's seeded boot_sigma value (its assignment to groups is what is checked).",
+        ref="DESIGN.md section 6 C15",
+    ),
+    "C16": dict(
+        category="exploration",
+        technique="runtime monitoring: boundary contracts on Featurizer.prepare_data / filter_to_active_features / generate_holdout_data in full runs and direct hostile calls",
+        text="Contracts on every Featurizer call of full runs (three estimators, strata, outlier model) and on 16k "
+             "(quick) random frames.",
+        note="Trusted: contracts in vlib/checks/c16.py; prefix-colliding effect names not generated.",
+        ref="DESIGN.md section 6 C16",
+    ),
+    "C19": dict(
+        category="fault_enumeration",
+        technique="runtime monitoring: scripted service behind a real botocore client with the real s3transfer thread pool; event log + return-value oracle under injected delays and download faults",
+        text="Listing and retrieval over generated version histories, page sizes, windows, sampling steps, failing "
+             "subsets and injected delays, with the real TransferManager threads; each returned row identifies its "
+             "download.",
+        note="Trusted: the scripted service honours S3 paging semantics (newest first, markers).",
+        ref="DESIGN.md section 6 C19",
+    ),
 }
 
 NOT_YET = {}
